@@ -213,3 +213,33 @@ def is_noreturn_call(prog, func, e):
         return True
     t = prog.func(name, func.tu) if name else None
     return t is not None and t is not func and never_returns(prog, t)
+
+
+def ctype_test(c):
+    """recognise isdigit(X) & co in either form glibc gives them: a call, or the macro expansion
+    (*__ctype_b_loc())[(int)(X)] & _ISdigit.  Returns (class name such as 'digit', X node) or None."""
+    c = strip(c)
+    if c is None:
+        return None
+    if c.k == 'CallExpr' and (c.get('callee') or '').startswith('is') and c.get('callee') in (
+            'isdigit', 'isalpha', 'isspace', 'isalnum', 'isupper', 'islower', 'isxdigit', 'ispunct', 'isprint'):
+        return c['callee'][2:], strip(arg(c, 0))
+    if c.k == 'BinaryOperator' and c.get('op') == '&':
+        tab, cls = None, None
+        for x in c.ch:
+            sx = strip(x)
+            if sx is None:
+                continue
+            if sx.k == 'ArraySubscriptExpr' and any(n.k == 'CallExpr' and n.get('callee') == '__ctype_b_loc' for n in sx.ch[0].walk()):
+                tab = sx
+            else:
+                for n in sx.walk():
+                    if n.k == 'DeclRefExpr' and (n['ref'].get('name') or '').startswith('_IS'):
+                        cls = n['ref']['name'][3:]
+        if tab is not None and cls is not None:
+            x = tab.ch[1]
+            # peel the (int)((X)) wrapper of the macro
+            while x is not None and x.k in ('ImplicitCastExpr', 'ParenExpr', 'CStyleCastExpr'):
+                x = x.ch[0]
+            return cls, x
+    return None
